@@ -161,6 +161,40 @@ class C08(ProtoSpec):
         return bool(mon.mb)
 
 
+class C08SameSide(C08):
+    """two connections of one side both have the mailbox open (a client that reconnected); narrow alphabet"""
+
+    def configure(self, tier):
+        X = "X"
+        self.cfg = dict(storage="memory")
+        binds = [[(X, "A")], [(X, "A")], [(X, "A"), (X, "B")], [(X, "A"), (X, "B")], [(X, "B")]]
+        self.driver = Driver(binds, names=(), mids=("m",), msgs=(("p", "00", "i1"),), kinds=("bind", "open", "add", "close"),
+                             close_forms=("bare", "unopened"), moods=("happy",), max_adds=1,
+                             max_conns=4 if tier == "quick" else 5)
+        self.depth = 6 if tier == "quick" else 8
+
+    def seeds(self):
+        return [[("cbind", 0, "X", "A"), ("cbind", 1, "X", "A"), ("open", 0, "m"), ("open", 1, "m")]]
+
+
+class C08Restart(C08):
+    """closes that arrive after a restart (file-backed): both sides had the mailbox open and a message stored"""
+
+    def configure(self, tier):
+        X = "X"
+        self.cfg = dict(storage="file")
+        binds = [[(X, "A")], [(X, "B")], [(X, "A"), (X, "B")], [(X, "A"), (X, "B")], [(X, "A"), (X, "B")]]
+        self.driver = Driver(binds, names=(), mids=("m",), msgs=(("p", "00", "i1"),), kinds=("bind", "open", "add", "close"),
+                             close_forms=("bare", "unopened"), moods=("happy",), max_adds=1,
+                             max_conns=4 if tier == "quick" else 5)
+        self.depth = 4 if tier == "quick" else 6
+
+    def seeds(self):
+        A, B = ("cbind", 0, "X", "A"), ("cbind", 1, "X", "B")
+        s = [A, B, ("open", 0, "m"), ("open", 1, "m"), ("add", 0, "p", "00", "i1")]
+        return [s + [("restart",)], s + [("close", 0, None, "happy"), ("restart",)]]
+
+
 RULE = ("BFS over every history of claim/release/open/add/close(/disconnect) by sides A and B over up to 5 connections, "
         "nameplates 1 and 2 and client-chosen mailboxes; oracle after every step: a mailbox row disappears only when "
         "its last open side closes; every close is answered `closed`; last close leaves nothing of this mailbox and "
@@ -168,10 +202,16 @@ RULE = ("BFS over every history of claim/release/open/add/close(/disconnect) by 
 
 
 def make_spec(tier, name=None):
-    return C08(tier)
+    if name == "c08-sameside":
+        return C08SameSide(tier)
+    return C08Restart(tier) if name == "c08-restart" else C08(tier)
 
 
 def run(pid, tier, seed, args):
     from .base_run import run_specs
     spec = make_spec(tier)
-    return run_specs(pid, tier, seed, args, [("c08", spec, spec.depth, 100 if tier == "quick" else 1500)], rule=RULE)
+    spec2 = make_spec(tier, "c08-restart")
+    b = 100 if tier == "quick" else 1500
+    spec3 = make_spec(tier, "c08-sameside")
+    return run_specs(pid, tier, seed, args, [("c08", spec, spec.depth, b), ("c08-restart", spec2, spec2.depth, b / 3),
+                                             ("c08-sameside", spec3, spec3.depth, b / 3)], rule=RULE)
